@@ -661,7 +661,12 @@ func runConn(h *H, cs *connSpec, idx int, tag string) {
 	}
 	for _, bp := range bodyProblems {
 		parts := strings.SplitN(bp, "|", 2)
-		h.rep.Add(hx.Finding{Kind: "oracle", Property: "C11", Signature: parts[0] + "-in-request-body", What: parts[1], Replay: replay})
+		if parts[0] == "poison" || parts[0] == "garbage" {
+			h.rep.Add(hx.Finding{Kind: "oracle", Property: "C11", Signature: parts[0] + "-in-request-body", What: parts[1], Replay: replay})
+		} else {
+			// a wrong or short body without pool memory in it is not C11's subject (C07/C10): counted, not reported
+			h.rep.Stat("conn.request-body-" + parts[0] + "-without-poison")
+		}
 	}
 	h.finish(al, "conn", replay)
 	if idx < 2 && tag == "" {
